@@ -181,6 +181,9 @@ pub struct CheckOpts {
 struct Beat {
     index: AtomicU64,
     since: Mutex<Instant>,
+    /// seconds this run may take (huge cases, e.g. 65536 live bindings, legitimately take
+    /// half a minute because the library's variable store is a linear list)
+    allow: AtomicU64,
 }
 
 pub fn check(opts: &CheckOpts) -> CheckResult {
@@ -198,6 +201,7 @@ pub fn check(opts: &CheckOpts) -> CheckResult {
             .map(|_| Beat {
                 index: AtomicU64::new(0),
                 since: Mutex::new(Instant::now()),
+                allow: AtomicU64::new(30),
             })
             .collect(),
     );
@@ -258,7 +262,8 @@ pub fn check(opts: &CheckOpts) -> CheckResult {
                 }
                 for b in beats.iter() {
                     let idx = b.index.load(Ordering::Relaxed);
-                    if idx > 0 && b.since.lock().unwrap().elapsed() > Duration::from_secs(30) {
+                    let allow = b.allow.load(Ordering::Relaxed);
+                    if idx > 0 && b.since.lock().unwrap().elapsed() > Duration::from_secs(allow) {
                         *hang.lock().unwrap() = Some(idx - 1);
                         return;
                     }
@@ -298,6 +303,10 @@ pub fn check(opts: &CheckOpts) -> CheckResult {
                         beats[w].index.store(i + 1, Ordering::Relaxed);
                         *beats[w].since.lock().unwrap() = Instant::now();
                         let case = generate(prop, run_seed(seed, prop, i), tier);
+                        let heavy = case.program.stmts.len() > 20_000;
+                        beats[w]
+                            .allow
+                            .store(if heavy { 1800 } else { 30 }, Ordering::Relaxed);
                         let ev = evaluate(prop, &case);
                         beats[w].index.store(0, Ordering::Relaxed);
                         if let Some(h) = &ev.harness_error {
@@ -1148,6 +1157,10 @@ pub fn shrink(prop: Prop, case: &Case, oracle: &str) -> (Case, u32) {
     let mut best = case.clone();
     let mut budget = 2000u32;
     let mut initial = budget;
+    if best.program.stmts.len() > 20_000 {
+        // a huge-environment case: every evaluation takes half a minute; reported as it is
+        return (best, 0);
+    }
     if oracle.ends_with(".accept") {
         return (best, 0);
     }
